@@ -42,6 +42,11 @@ def strat_load(draw, tier):
         blocks = draw(st.sampled_from([0, 1, 1, 2, 3, 5]))
         extra = draw(st.sampled_from([0, 4, 8, buf - 4, buf // 2]))
         size = max(4, blocks * buf + extra)
+        if draw(st.integers(0, 24)) == 0:
+            # the largest binaries a flood fill can announce: 255 blocks (the
+            # last one full or partial), and 254
+            size = draw(st.sampled_from([255 * buf, 254 * buf + 4,
+                                         254 * buf, 255 * buf - 4]))
         targets = {}
         style = draw(st.sampled_from(["sparse", "block", "mixed"]))
         sel = []
